@@ -99,6 +99,10 @@ class SimpleSparse:
         """
         if self.indices is not None:
             return self.indices, self.xs
+        elif not self.elements:
+            # no elements left (e.g. after exact cancellation in a sum): the zero operator
+            self.indices, self.xs = np.empty((0, 2), dtype=np.int64), np.empty(0)
+            return self.indices, self.xs
         else:
             indices, xs = zip(*self.elements.items())
             self.indices, self.xs = np.array(indices), np.array(xs)
